@@ -89,16 +89,18 @@ static void op_lplus(Ctx& c) {
   G X = elemA(c); T t = tanB(c); Jac Ja, Jt; int m = pick_mask(c); G R = X.lplus(t, opt(Ja, m & 1), opt(Jt, m & 2));
   HEAD("lplus") o.vec("a", X.coeffs()); o.vec("t", t.coeffs()); o.vec("r", R.coeffs()); if (m & 1) o.mat("Ja", Ja); if (m & 2) o.mat("Jt", Jt); o.end();
 }
+// two-operand operations: one draw in 16 uses bitwise IDENTICAL operands (X (-) X, between(X, X)): an exact special case
+static bool same_operands(Ctx& c) { return c.r.i(0, 15) == 0; }
 static void op_rminus(Ctx& c) {
-  G Y = elemA(c); G X = Y.compose(elemD(c)); Jac Ja, Jb; int m = pick_mask(c); T t = X.rminus(Y, opt(Ja, m & 1), opt(Jb, m & 2));
+  G Y = elemA(c); G X = Y.compose(elemD(c)); if (same_operands(c)) X = Y; Jac Ja, Jb; int m = pick_mask(c); T t = X.rminus(Y, opt(Ja, m & 1), opt(Jb, m & 2));
   HEAD("rminus") o.vec("a", X.coeffs()); o.vec("b", Y.coeffs()); o.vec("rt", t.coeffs()); if (m & 1) o.mat("Ja", Ja); if (m & 2) o.mat("Jb", Jb); o.end();
 }
 static void op_lminus(Ctx& c) {
-  G Y = elemA(c); G X = elemD(c).compose(Y); Jac Ja, Jb; int m = pick_mask(c); T t = X.lminus(Y, opt(Ja, m & 1), opt(Jb, m & 2));
+  G Y = elemA(c); G X = elemD(c).compose(Y); if (same_operands(c)) X = Y; Jac Ja, Jb; int m = pick_mask(c); T t = X.lminus(Y, opt(Ja, m & 1), opt(Jb, m & 2));
   HEAD("lminus") o.vec("a", X.coeffs()); o.vec("b", Y.coeffs()); o.vec("rt", t.coeffs()); if (m & 1) o.mat("Ja", Ja); if (m & 2) o.mat("Jb", Jb); o.end();
 }
 static void op_between(Ctx& c) {
-  G X = elemA(c); G Y = X.compose(elemD(c)); Jac Ja, Jb; int m = pick_mask(c); G R = X.between(Y, opt(Ja, m & 1), opt(Jb, m & 2));
+  G X = elemA(c); G Y = X.compose(elemD(c)); if (same_operands(c)) Y = X; Jac Ja, Jb; int m = pick_mask(c); G R = X.between(Y, opt(Ja, m & 1), opt(Jb, m & 2));
   HEAD("between") o.vec("a", X.coeffs()); o.vec("b", Y.coeffs()); o.vec("r", R.coeffs()); if (m & 1) o.mat("Ja", Ja); if (m & 2) o.mat("Jb", Jb); o.end();
 }
 static void op_tplus(Ctx& c) {   // tangent + tangent and tangent - tangent with Jacobians
